@@ -156,6 +156,14 @@ pub fn kahan_prog<F: FElem>(toks: &[String]) -> String {
                 out.push(format!("{} {} {}", s.enc(), c.enc(), k.value().enc()));
                 i += 1;
             }
+            "e" => {
+                // `==` of the two topmost registers, and of the top one with `KahanSum::from(its value)`
+                let n = st.len();
+                let (a, bb) = (st[n - 2], st[n - 1]);
+                let f = KahanSum::<F>::from(bb.value());
+                out.push(format!("{} {} {}", b(a == bb), b(bb == f), f.value().enc()));
+                i += 1;
+            }
             _ => panic!("bad token"),
         }
     }
@@ -366,6 +374,27 @@ pub fn c08(out: &mut Vec<String>, rng: &mut Rng, tier: &str) {
         } else {
             out.push(format!("C08 kahan f {} => {}", toks.join(" "), kahan_prog::<f64>(&toks)));
         }
+    }
+    // equality of registers is equality of their values (`==`), `From<T>` builds a register holding the value
+    for _ in 0..(if tier == "thorough" { 300 } else { 60 }) {
+        let n = rng.range(1, 12) as usize;
+        let xs: Vec<f64> = (0..n).map(|_| (rng.unit() - 0.5) * 8.0).collect();
+        let mut toks: Vec<String> = vec!["E".into(), "x".into(), format!("{}", n)];
+        toks.extend(xs.iter().map(|x| x.enc()));
+        // the same data in another order / a clone / one more element
+        toks.push("E".into());
+        toks.push("x".into());
+        let ys: Vec<f64> = match rng.below(3) {
+            0 => xs.clone(),
+            1 => xs.iter().rev().cloned().collect(),
+            _ => { let mut y = xs.clone(); y.push(rng.unit() * 1e-9); y }
+        };
+        toks.push(format!("{}", ys.len()));
+        toks.extend(ys.iter().map(|x| x.enc()));
+        toks.push("e".into());
+        out.push(format!("C08 kahan f {} => {}", toks.join(" "), kahan_prog::<f64>(&toks)));
+        let t32: Vec<String> = toks.iter().map(|t| if t.starts_with('x') && t.len() == 17 { (f64::from_bits(u64::from_str_radix(&t[1..], 16).unwrap()) as f32).enc() } else { t.clone() }).collect();
+        out.push(format!("C08 kahan g {} => {}", t32.join(" "), kahan_prog::<f32>(&t32)));
     }
     // one register fed alternately by value and by (one-element) register
     for (n, id, param) in [(20_000u64, 1u64, 1.1f64), (1_000_000, 1, 1.1), (1_000_000, 2, 1.0), (200_000, 0, 0.1)] {
@@ -605,10 +634,19 @@ impl<F: FElem> Acc for Unpaired<F> {
         Unpaired::default()
     }
     fn append(&mut self, obs: &[String]) {
+        // alternate between the wrapper and the mutable accessor of the per-sample statistics
+        let x = pf::<F>(&obs[1]);
+        let via_accessor = obs[1].as_bytes().last().map(|c| c % 2 == 0).unwrap_or(false);
         if obs[0] == "A" {
-            self.append_a(pf::<F>(&obs[1])).unwrap();
+            if via_accessor {
+                stats_ci::StatisticsOps::append(self.stats_a_mut(), x).unwrap();
+            } else {
+                self.append_a(x).unwrap();
+            }
+        } else if via_accessor {
+            stats_ci::StatisticsOps::append(self.stats_b_mut(), x).unwrap();
         } else {
-            self.append_b(pf::<F>(&obs[1])).unwrap();
+            self.append_b(x).unwrap();
         }
     }
     fn extend(&mut self, obs: &[String]) {
